@@ -12,6 +12,7 @@ mod ops_poly;
 mod ops_relate;
 mod ops_segseg;
 mod ops_simplify;
+mod ops_traversal;
 mod ops_valid;
 
 use ctx::Ctx;
@@ -82,6 +83,7 @@ fn dispatch_case(cx: &mut Ctx, n: u64, case: &Value) {
         "simplify" => ops_simplify::simplify_case(cx, n, case),
         "valid" => ops_valid::valid_case(cx, n, case),
         "linemeasure" => ops_linemeasure::linemeasure_case(cx, n, case),
+        "traversal" => ops_traversal::traversal_case(cx, n, case),
         "poly" => ops_poly::poly_case(cx, n, case),
         "relate" => ops_relate::relate_case(cx, n, case),
         "coordpos" => ops_relate::coordpos_case(cx, n, case),
